@@ -831,6 +831,7 @@ func checkC19(c *Ctx) {
 	}
 	checkHexTables(c, "C19.hex-tables")
 	checkC19Round2(c)
+	checkC19DumpFunctionsSkipMacros(c)
 	checkC19PrefixPlain(c)
 	checkKeyCodeTables(c, "C19.key-code-tables")
 }
@@ -877,4 +878,42 @@ func dependsOnUse(v ssa.Value) bool {
 		return false
 	}
 	return walk(v, 0)
+}
+
+// ---- C19.dump-functions-skip-macros (round 6)
+// A bind is a function or a macro (Bind.Macro). dump-macros prints the macros; the function dump
+// must leave them out, whatever their text: printed as `"seq": text` a macro reads back as a function.
+func checkC19DumpFunctionsSkipMacros(c *Ctx) {
+	p, r := c.P, c.R
+	r.Rule("C19.dump-functions-skip-macros", "K4", "(*keymap.Engine).PrintBinds — the function dump — lists a key sequence under a command only when the bind is not a macro (Bind.Macro known false where the sequence is escaped for the list): a macro whose text is the name of a command would be printed `\"seq\": name`, which reads back as a function bind", 1)
+	PB := p.Func("(*keymap.Engine).PrintBinds")
+	if PB == nil {
+		r.Unk("C19.dump-functions-skip-macros", "(*keymap.Engine).PrintBinds", "-", "anchor not found")
+		return
+	}
+	r.Fn(fnName(PB))
+	bf := blockFacts(PB)
+	n := 0
+	for _, fn := range withAnons(PB) {
+		_ = fn
+	}
+	for i, call := range callsTo(PB, false, "inputrc.Escape") {
+		n++
+		notMacro := false
+		for fc := range factsAt(bf, call.(ssa.Instruction)) {
+			if fc.Val {
+				continue
+			}
+			if _, fld, ok := fieldRead(fc.Cond); ok && fld == "Macro" {
+				notMacro = true
+			}
+			if f, ok := fc.Cond.(*ssa.Field); ok && fieldName(f.X.Type(), f.Field) == "Macro" {
+				notMacro = true
+			}
+		}
+		r.Check(notMacro, "C19.dump-functions-skip-macros", siteKey(PB, "Escape", i), p.IPos(call.(ssa.Instruction)), "under bind.Macro == false", "the function dump lists this key sequence without testing that the bind is not a macro: a macro whose text names a command (\"\\C-xq\": \"abort\" as a macro) is printed as a function bind and parsed back as one")
+	}
+	if n == 0 {
+		r.Unk("C19.dump-functions-skip-macros", fnName(PB)+":Escape", p.Pos(PB.Pos()), "PrintBinds escapes no key sequence: anchor changed")
+	}
 }
